@@ -1,4 +1,4 @@
-/- Kernel obligation: `bfChk` (Proofs/C11_NumDefs.lean) on the 16-bit patterns 0xb000..0xbfff. -/
+/- Kernel obligation: `bfChk` (Proofs/C11_NumDefs.lean) on the 16-bit patterns 0x2c00..0x2fff. -/
 import BitstringModel.Proofs.C11_NumDefs
 namespace BM.C11
 theorem bfChunk_11 : bfChunkOk 11 = true := by decide +kernel
